@@ -526,13 +526,12 @@ def check_cookie_memo_invalidation(P, R, rid, why='a cookie is read back from th
              f'environ - the parsed cookie jar, the headers - stay cached, so a Cookie header written through the request is not what get_cookie() reads',
              why=why, key_extra='emit-after-store')
     oc = P.func('ombott.request_pkg.request:BaseRequest._on_env_changed')
-    ok = False
-    for t in [n for n in oc.cfg.nodes if n.kind == 'test' and n.ast is not None]:
-        if any(isinstance(c, ast.Call) and call_attr(c) == 'startswith' and c.args and is_const(c.args[0], 'HTTP_') for c in ast.walk(t.ast)):
-            for m_ in T.succ_by_label(t, 'true'):
-                from .c18 import _str_consts
-                if m_.kind == 'stmt' and m_.ast is not None and 'cookies' in _str_consts(oc, m_.ast):
-                    ok = True
+    from .c18 import listener_drops
+    ld = listener_drops(P, 'HTTP_')
+    if ld is None:
+        R.undecided(rid, oc, oc.node, 'cookie memo', 'how the change listener maps HTTP_* keys to the memos it drops has no recogniser')
+        return
+    ok = 'cookies' in ld[0]
     R.ob(rid, oc, oc.node, ok, text='a changed HTTP_* key drops the `cookies` memo', detail='' if ok else
          'the change listener does not drop the cached cookie jar when a header key changes', why=why, key_extra='listener-cookies')
 
